@@ -226,6 +226,11 @@ def explainRun (ids : List Hash) : State → SpecSt → List DOp → List String
         match o with
         | .op (.invalidate ..) => "F-C02-a@" ++ toString k
         | .op (.reconsider ..) => "F-C02-b@" ++ toString k
+        | .op (.block b) =>
+          -- a delivered block whose header-only index node had been manually invalidated is accepted and
+          -- connected all the same (maybeAcceptBlock does not look at the node's own invalid status)
+          if (lookup s.idx b.hash).isSome && !(s.status b.hash).data && (s.status b.hash).knownInvalid
+          then "F-C02-e@" ++ toString k else "spec@" ++ toString k
         | _ => "spec@" ++ toString k
       else explainRun ids s' sp' rest gs (k + 1)
 
